@@ -2,13 +2,15 @@ package main
 
 // C05 VarInt / VarLong. Spec: specs/VarInt.tla (decoder step machine + encoder function).
 // Leg S+A: TLC explores VarInt_MC / VarLong_MC and emits one JSON vector per state; every vector is
-//          replayed into net/packet (WriteTo, WriteToBytes, Len, ReadFrom on two reader kinds).
+//          replayed into net/packet (WriteTo, WriteToBytes, Len, ReadFrom on two reader kinds; leg B also through a
+//          partly consumed *bufio.Reader).
 // Leg B:   random + boundary values and mutated byte strings through the real code, logged as ndjson,
 //          judged by VarInt_Trace (which drives the spec's Feed action with the logged bytes).
 // Sweep:   a Go mirror of Enc (validated by TLC inside the same trace) compared with the real code on
 //          all 2^32 VarInt values (thorough) / a stride (quick) and all byte strings of length <= 3.
 
 import (
+	"bufio"
 	"bytes"
 	"encoding/json"
 	"fmt"
@@ -125,6 +127,31 @@ func viDecode(w int, input []byte, plain bool) viDecRes {
 	res.ok = err == nil
 	res.left = br.Len()
 	res.consumed = len(input) - br.Len()
+	return res
+}
+
+// viDecodeBuf: the same decode through a *bufio.Reader (16-byte buffer) from which k bytes were taken before, so that
+// the value starts inside the buffered bytes and may end beyond them (a reader type with Peek / Discard / Buffered
+// invites fast paths of its own).
+func viDecodeBuf(w int, input []byte, k int) viDecRes {
+	stream := append(bytes.Repeat([]byte{0x01}, k), input...)
+	under := bytes.NewReader(stream)
+	br := bufio.NewReaderSize(under, 16)
+	io.ReadFull(br, make([]byte, k))
+	var res viDecRes
+	var err error
+	if w == 2 {
+		v := pk.VarInt(0x5A5A5A5A)
+		res.rn, err = v.ReadFrom(br)
+		res.rv = uint64(uint32(v))
+	} else {
+		v := pk.VarLong(0x5A5A5A5A5A5A5A5A)
+		res.rn, err = v.ReadFrom(br)
+		res.rv = uint64(v)
+	}
+	res.ok = err == nil
+	res.left = under.Len() + br.Buffered()
+	res.consumed = len(input) - res.left
 	return res
 }
 
@@ -269,6 +296,7 @@ type viDecEv struct {
 	Consumed int    `json:"consumed"`
 	Panicked bool   `json:"panicked"`
 	Plain    bool   `json:"plain"`
+	Buf      int    `json:"buf"` // > 0: read through a *bufio.Reader of 16 bytes of which Buf had been consumed before
 }
 
 func viLimbs(w int, u uint64) []int {
@@ -297,6 +325,16 @@ func viEncEventW(w int, u uint64, mk func(*bytes.Buffer) io.Writer) viEncEv {
 	if ev.Wtb == nil {
 		ev.Wtb = []int{}
 	}
+	return ev
+}
+
+func viDecEventBuf(w int, in []byte, k int) viDecEv {
+	ev := viDecEv{K: "dec", Input: ints(in), Buf: k, Rv: viLimbs(w, 0)}
+	p, _ := catch(func() {
+		r := viDecodeBuf(w, in, k)
+		ev.Ok, ev.Rn, ev.Rv, ev.Left, ev.Consumed = r.ok, int(r.rn), viLimbs(w, r.rv), r.left, r.consumed
+	})
+	ev.Panicked = p
 	return ev
 }
 
@@ -366,6 +404,9 @@ func viTrace(env *vk.Env, w int, nvals int, salt string) *vk.Trace {
 			}
 		}
 		tr.Add(viDecEvent(w, in, rng.Intn(2) == 0))
+		if rng.Intn(3) == 0 {
+			tr.Add(viDecEventBuf(w, in, 7+rng.Intn(9))) // 7..15 of the 16 buffered bytes are gone: the value straddles the refill
+		}
 	}
 	return tr
 }
@@ -412,6 +453,7 @@ func viRejudgeLine(env *vk.Env, w int, raw []byte) (sig, detail string, rejected
 		Val   []int  `json:"val"`
 		Input []int  `json:"input"`
 		Plain bool   `json:"plain"`
+		Buf   int    `json:"buf"`
 	}
 	json.Unmarshal(raw, &probe)
 	tr := &vk.Trace{}
@@ -423,6 +465,9 @@ func viRejudgeLine(env *vk.Env, w int, raw []byte) (sig, detail string, rejected
 		detail = mustJSON(ev)
 	} else {
 		ev := viDecEvent(w, bytesOf(probe.Input), probe.Plain)
+		if probe.Buf > 0 {
+			ev = viDecEventBuf(w, bytesOf(probe.Input), probe.Buf)
+		}
 		tr.Add(ev)
 		cls := "ok"
 		if !ev.Ok {
